@@ -130,6 +130,7 @@ class ApiSession:
         self.receiver = receiver
         self.dev = dsim.Device(self.sim, respond=receiver.respond, latency_us=latency_us, gap_us=gap_us)
         self.devs = [self.dev] + [dsim.Device(self.sim, respond=r.respond, latency_us=latency_us, gap_us=gap_us) for r in more_receivers]
+        self.decoy_dev = None
         self.ports = {}
         self.port = None
         self.api = None
@@ -146,6 +147,10 @@ class ApiSession:
     def _mkport(self, url):
         import serial
 
+        if url.endswith("/decoy"):
+            port = dsim.SimPort(self.sim, self.decoy_dev)
+            self.ports["decoy"] = port
+            return port
         if self.open_error:
             raise serial.SerialException("could not open port")
         tail = url.rsplit("/", 1)[-1]
@@ -178,6 +183,45 @@ class ApiSession:
         if idx == 0:
             self.api = api
         return api
+
+    def start_decoy_connection(self, lines_at=()):
+        """a second, healthy connection of the same process to another receiver, which speaks on its own:
+        lines_at = [(virtual time in us, line)].  Its events are kept apart (dsim decoy).  Returns a closer."""
+        from ynca.connection import YncaConnection
+
+        sim = self.sim
+        self.decoy_dev = dsim.Device(sim, respond=lambda line, idx: ["@SYS:MODELNAME=DECOY-1"] if line == "@SYS:MODELNAME=?" else ([line[:-1] + "Ready"] if line.endswith("=?") else [line]), latency_us=30000, gap_us=700, decoy=True)
+        self.decoy_deliveries = []
+        with sim.decoy():
+            d = YncaConnection("sim://x/decoy")
+            d.register_message_callback(lambda st, s_, f, v: self.decoy_deliveries.append((st.name, s_, f, v)))
+            d.connect(lambda: None, 0)
+        for t, line in lines_at:
+            self.decoy_dev.emit_at(t, line.encode("utf-8") + b"\r\n")
+        self.decoy_conn = d
+
+        def stop():
+            with sim.decoy():
+                d.close()
+
+        return stop
+
+    def start_decoy_api(self, receiver):
+        """another, healthy YncaApi object of the same process on another receiver, fully initialised.
+        Returns (api, stop)."""
+        import ynca
+
+        sim = self.sim
+        self.decoy_dev = dsim.Device(sim, respond=receiver.respond, latency_us=20000, gap_us=500, decoy=True)
+        with sim.decoy():
+            api2 = ynca.YncaApi("sim://x/decoy", lambda: None, 0)
+            api2.initialize()
+
+        def stop():
+            with sim.decoy():
+                api2.close()
+
+        return api2, stop
 
     def call(self, fn):
         """run fn(), recording result / exception / virtual duration and the event index range"""
